@@ -216,6 +216,62 @@ def rule_rename_plumbing(repo: Repo, rep: Report, rule: str) -> None:
                           f"wire-key renames are not plumbed through (reads Meta.{meta}: {reads}, override(rename): {bool(ov)}, **overrides into {maker}: {bool(mk)})", fn.loc())
 
 
+def rule_unlisted_field_keeps_its_name(repo: Repo, rep: Report, rule: str) -> None:
+    """Both directions use the same wire key for a field: the one the Meta map lists, and - for a field the map does not list - the
+    field's own name.  In each of the two function makers every definition of the value passed as `override(rename=...)` is therefore
+    the field name itself, a key taken from the Meta map (`for jk, pf in map.items()`), or `map.get(name, name)` / `map[name]`: a key
+    *derived* on one side (camel-casing, stripping a keyword suffix) makes encode and decode disagree for every unlisted field."""
+    conv = repo.module(CONV)
+    from sa.flatten import flatten as _flk
+
+    for fname in ("_make_dataclass_structure_fn", "_make_dataclass_unstructure_fn"):
+        fn = conv.functions.get(fname)
+        if fn is None:
+            raise AnalysisError(f"anchor vanished: {fname}")
+        if not any((dotted(c.func) or "").split(".")[-1] == "override" for c in calls_in(fn.node)):
+            fn = _flk(fn, depth=1)
+        L = Locals(fn.node)
+        ovs = [c for c in calls_in(fn.node) if (dotted(L.inline(c.func)) or "").split(".")[-1] == "override" and any(k.arg == "rename" for k in c.keywords)]
+        if not ovs:
+            rep.error(f"{rule}: no override(rename=...) found in {fname} (anchor)")
+            continue
+        # names that hold the field's own name: `<field>.name` of the loop over dataclasses.fields and locals assigned from it
+        own: set = set()
+        for st in own_nodes(fn.node):
+            if isinstance(st, ast.Assign) and isinstance(st.targets[0], ast.Name) and isinstance(st.value, ast.Attribute) and st.value.attr == "name":
+                own.add(st.targets[0].id)
+        items_keys: set = set()
+        for lp in [x for x in own_nodes(fn.node) if isinstance(x, (ast.For, ast.comprehension))]:
+            if isinstance(lp.iter, ast.Call) and isinstance(lp.iter.func, ast.Attribute) and lp.iter.func.attr in ("items", "keys", "values"):
+                items_keys |= {x.id for x in ast.walk(lp.target) if isinstance(x, ast.Name)}
+
+        def is_own(e: ast.AST) -> bool:
+            return (isinstance(e, ast.Name) and e.id in own) or (isinstance(e, ast.Attribute) and e.attr == "name")
+
+        for ov in ovs:
+            rv = next(k.value for k in ov.keywords if k.arg == "rename")
+            vals = [rv]
+            if isinstance(rv, ast.Name):
+                vals = [v for k, v, _ in L.defs.get(rv.id, []) if v is not None] or [rv]
+            bad = []
+            for v in vals:
+                ok = is_own(v) or (isinstance(v, ast.Name) and v.id in items_keys) \
+                    or (isinstance(v, ast.Call) and isinstance(v.func, ast.Attribute) and v.func.attr == "get" and len(v.args) == 2 and is_own(v.args[0]) and is_own(v.args[1])) \
+                    or (isinstance(v, ast.Call) and isinstance(v.func, ast.Attribute) and v.func.attr == "get" and len(v.args) == 1 and is_own(v.args[0])) \
+                    or (isinstance(v, ast.Subscript) and is_own(v.slice)) \
+                    or (isinstance(v, ast.Call) and dotted(v.func) == "next" and any(isinstance(x, ast.Name) and x.id in items_keys for x in ast.walk(v)) and (len(v.args) < 2 or is_own(v.args[1])))
+                if not ok:
+                    bad.append(norm(v)[:60])
+            sub = f"{conv.relpath}:{fname} wire key of a field"
+            if bad:
+                rep.violation(rule, sub, f"{fn.fq}|derived-wire-key|{bad[0][:30]}",
+                              f"the key passed as override(rename=...) can be `{bad[0]}` - neither the field's own name nor an entry of the Meta map: for a field the map does not "
+                              "list the two directions use different keys (decode expects the field name, encode writes a derived one), so decode(encode(x)) fails and "
+                              "encode(decode(d)) renames keys", fn.loc(ov))
+            else:
+                rep.ok(rule, sub, f"every definition of the renamed key is the field name or a Meta map entry ({[norm(v)[:30] for v in vals]})", fn.loc(ov))
+
+
 def rule_recursive_registration(repo: Repo, rep: Report, rule: str) -> None:
     conv = repo.module(CONV)
     from sa.flatten import flatten as _flc
